@@ -12,13 +12,14 @@ import (
 
 // Case is one synthesized generator input.
 type Case struct {
-	ID     string
-	Class  string // "legal", "illegal:<why>", "tricky:<why>"
-	Files  []svcdesc.File
-	Gen    string // file to generate
-	Param  string
-	Desc   string // human-readable summary
-	expect string // "accept" | "diagnose" | "either"
+	ID      string
+	Class   string // "legal", "illegal:<why>", "tricky:<why>"
+	Files   []svcdesc.File
+	Gen     string   // file to generate
+	GenAlso []string // further files to generate in the same request
+	Param   string
+	Desc    string // human-readable summary
+	expect  string // "accept" | "diagnose" | "either"
 }
 
 // Expect returns the expected branch.
@@ -445,5 +446,40 @@ func TrickyCases(rng *rand.Rand, prefix string) []Case {
 			{Name: "A", In: b.useImported(), Out: b.useImported(), Opts: svcdesc.Opts{Quorumcall: true, Async: true}},
 			{Name: "C", In: in, Out: b.useImported(), Opts: svcdesc.Opts{Correctable: true}, ServerStream: true}}
 	})
+	return out
+}
+
+// MultiFileCases returns requests that ask for two files at once: two services in different packages that share a method
+// name (and message names) but give it different call types. Each file alone is documented-legal, so the request is.
+func MultiFileCases(rng *rand.Rand, prefix string) []Case {
+	var out []Case
+	n := 0
+	kinds := []callKind{kRPC, kUnicast, kMulticast, kQC, kAsync, kCorr, kCorrStream}
+	for _, k1 := range kinds {
+		for _, k2 := range kinds {
+			if k1 == k2 {
+				continue
+			}
+			n++
+			b := newBuilder(rng, fmt.Sprintf("%s%d", prefix, n))
+			in, rep := b.addMsg("Request"), b.addMsg("Response")
+			b.f.Services = []svcdesc.Service{{Name: "Storage", Methods: []svcdesc.Method{
+				{Name: "Read", In: in, Out: rep, Opts: baseOpts(k1), ServerStream: k1 == kCorrStream},
+				{Name: "Write", In: in, Out: rep, Opts: baseOpts(kQC)},
+			}}}
+			dpkg := b.pkg + "log"
+			dep := svcdesc.File{Name: b.id + "/log/log.proto", Package: dpkg, GoPackage: b.gopkg + "/log", Deps: []string{"gorums.proto"},
+				Messages: []svcdesc.Message{msg("Request"), msg("Response")}}
+			din, drep := "."+dpkg+".Request", "."+dpkg+".Response"
+			dep.Services = []svcdesc.Service{{Name: "Log", Methods: []svcdesc.Method{
+				{Name: "Read", In: din, Out: drep, Opts: baseOpts(k2), ServerStream: k2 == kCorrStream},
+				{Name: "Append", In: din, Out: drep, Opts: baseOpts(k1), ServerStream: k1 == kCorrStream},
+			}}}
+			b.dep = &dep
+			c := b.build("legal", "accept", fmt.Sprintf("two files in one request: Storage.Read as %s, Log.Read as %s, Log.Append as %s", k1, k2, k1))
+			c.GenAlso = []string{dep.Name}
+			out = append(out, c)
+		}
+	}
 	return out
 }
